@@ -160,7 +160,7 @@ func (e *Exec) topReturn(s *State, f *Frame, res []Value, in *ssa.Return) {
 	}
 	// vacuity probes: one per returning path (at most 64); they are solved one after the other until a
 	// reachable return is found
-	if e.retProbes < 64 {
+	if e.retProbes < 400 {
 		e.retProbes++
 		e.emitProbe(s, fmt.Sprintf("reach.ret.%d", rn))
 	}
